@@ -41,6 +41,8 @@ func C18(c *Ctx) {
 	c.shareRule("C07", "C07-R11", "C18-R8", "the error state Walk builds after a failed step carries the bindings (permanent ones included) of the state that step started from")
 	c.shareRule("C10", "C10-R6", "C18-R9", "a script cannot reach a machine's live bindings through the step properties")
 	c.shareRule("C04", "C04-R8", "C18-R7", "an action's empty object is (empty) bindings, not the absence of bindings: the wrapper restores permanent bindings only into bindings")
+	c.R.Rule("C18-R10", "E7", "the engine removes no binding", 1)
+	c18EngineRemovesNothing(c, "C18-R10")
 	c.R.Rule("C18-R6", "E5", "the wrapped function gets its own copy of the bindings, so a failing action or rejecting guard cannot have removed anything from the machine's", 1)
 	c.R.Rule("C18-R5", "E3+E5", "a failed action leaves the machine's bindings in place: Step goes on from a copy of the given bindings", 2)
 	c18Failure(c)
